@@ -22,7 +22,9 @@ REQUIRED_CLASSES = ['streaming', 'err0=0', 'err0<=30', 'err0>=150', 'full-attitu
 
 DIP = 60.0
 TRUTHS = [np.array([1.0, 0, 0, 0]), np.array([0.0, 1.0, 0, 0]), rq.axang2q([0, 1, 0], math.pi / 2), None, None, rq.qunit([0.35, 0.6, -0.6, 0.4])]
-ERR_AXES = [np.array(v, float) for v in [(1, 0, 0), (0, 1, 0), (0, 0, 1), (1, 1, 0), (1, 1, 1), (1, 2, -1.5)]]
+ERR_AXES = [np.array(v, float) for v in [(1, 0, 0), (0, 1, 0), (0, 0, 1), (1, 1, 0), (1, 1, 1), (1, 2, -1.5)]] + [None]
+# the last entry (index 6) stands for "an axis perpendicular to the measured gravity direction": the whole initial error is a TILT error
+# (with a fixed body axis and a generic truth part of the error is heading and the predicted gravity is never nearly opposite to the measured one)
 ERR_ANG = [0.0, 1.0, 30.0, 90.0, 150.0, 175.0]
 
 
@@ -59,8 +61,10 @@ CONFIGS = {
     'ROLEQ-MARG': [(dict(frame='NED', magnetic_ref=DIP, frequency=10.0), 200, 0.5), (dict(frame='NED', magnetic_ref=DIP, frequency=100.0), 200, 0.5)],
     'ROLEQ-MARG-ENU': [(dict(frame='ENU', magnetic_ref=DIP, frequency=10.0), 300, 0.5)],
     'FKF-MARG': [(dict(frequency=10.0), 3000, 0.5)],
-    'Complementary-IMU': [(dict(frequency=10.0, gain=0.9), 200, 0.5), (dict(frequency=100.0, gain=0.2), 1000, 0.5), (dict(frequency=100.0), 8000, 0.5)],
-    'Complementary-MARG': [(dict(frequency=10.0, gain=0.9), 200, 0.5), (dict(frequency=100.0, gain=0.5), 100, 0.5), (dict(frequency=100.0, gain=0.5), 1500, 0.5),
+    'Complementary-IMU': [(dict(frequency=10.0, gain=0.0), 2, 0.5), (dict(frequency=10.0, gain=0.0), 3, 0.5), (dict(frequency=10.0, gain=0.0), 4, 0.5), (dict(frequency=10.0, gain=0.0), 5, 0.5),
+                          (dict(frequency=10.0, gain=0.9), 200, 0.5), (dict(frequency=100.0, gain=0.2), 1000, 0.5), (dict(frequency=100.0), 8000, 0.5)],
+    'Complementary-MARG': [(dict(frequency=10.0, gain=0.0), 2, 0.5), (dict(frequency=10.0, gain=0.0), 3, 0.5), (dict(frequency=10.0, gain=0.0), 4, 0.5), (dict(frequency=10.0, gain=0.0), 5, 0.5),
+                           (dict(frequency=10.0, gain=0.9), 200, 0.5),   # (gain 0: the estimate IS the accelerometer/magnetometer fix of each sample; records of 2 ... 5 samples) (dict(frequency=100.0, gain=0.5), 100, 0.5), (dict(frequency=100.0, gain=0.5), 1500, 0.5),
                            (dict(frequency=100.0), 8000, 0.5)],     # long records: "then stays there" far beyond the settling time
 }
 LONG = 5000      # configurations with a longer horizon run on a reduced initial-error grid
@@ -94,6 +98,10 @@ def run_orbit(r, cfg, H, qt, axis, ang_deg, pattern):
         m = cfg['magnetic_ref'] / np.linalg.norm(cfg['magnetic_ref'])
     Rt = rq.R(qt)
     acc1 = Rt.T @ g * 9.81; mag1 = Rt.T @ m * 45.0
+    if axis is None:
+        gb = Rt.T @ g
+        axis = np.cross(gb, [0.3, -0.5, 0.8] if abs(gb[2]) > 0.9 else [0.0, 0.0, 1.0])
+        axis = axis / np.linalg.norm(axis)
     q_init_att = rq.qmul(qt, rq.axang2q(axis, math.radians(ang_deg)))       # attitude (non-conjugate convention)
     gyr = np.tile(pattern, (H // len(pattern) + 1, 1))[:H]
     acc = np.tile(acc1, (H, 1)); mag = np.tile(mag1, (H, 1))
@@ -123,14 +131,14 @@ def job_orbits(ctx, key, ci, ti, k):
     tilt_only = not r.has_mag
     pats = noise_patterns()
     if ctx.thorough:
-        grid = [(ax, an, p) for ax in range(len(ERR_AXES)) for an in range(len(ERR_ANG)) for p in range(len(pats))]
+        grid = [(ax, an, p) for ax in range(len(ERR_AXES)) for an in range(len(ERR_ANG)) for p in range(len(pats)) if ax != 6 or p in (0, 4, 11)]
         if H > LONG:             # long default-gain runs: reduced initial-error set, documented
             grid = [(ax, an, p) for ax in (0, 2, 5) for an in (0, 2, 4, 5) for p in (0, 4, 11)]
     else:
         grid = [(ax, an, p) for ax in (0, 2, 5) for an in (0, 2, 4, 5) for p in (ti % 4, 4)]
-        grid += [(5, 4, 10 + ti % 3), (2, 2, 10 + (ti + 1) % 3)]
+        grid += [(5, 4, 10 + ti % 3), (2, 2, 10 + (ti + 1) % 3), (6, 5, 4), (6, 4, ti % 4), (6, 5, 0)]
         if H > LONG:
-            grid = [(2, 5, 4), (5, 2, 4), (5, 4, 10 + ti % 3)]
+            grid = [(2, 5, 4), (5, 2, 4), (5, 4, 10 + ti % 3), (6, 4, 4)]
     for ax, an, p in grid:
         kk = f'filter={key} cfg#{ci} truth#{ti}k{k} axis#{ax} err0={ERR_ANG[an]:g} noise#{p}'
         ctx.evals += 1
